@@ -39,7 +39,7 @@ pub fn worker_main() {
             }
         });
     }
-    let limit: u64 = std::env::var("LV_CASE_TIMEOUT_S").ok().and_then(|s| s.parse().ok()).unwrap_or(180);
+    let limit: u64 = std::env::var("LV_CASE_TIMEOUT_S").ok().and_then(|s| s.parse().ok()).unwrap_or(120);
     let stdin = std::io::stdin();
     let stdout = std::io::stdout();
     for line in stdin.lock().lines() {
@@ -138,11 +138,18 @@ impl Drop for Worker {
     }
 }
 
+/// number of watchdog expiries in this run (a model run that hangs is inconclusive, not a violation;
+/// after a few of them the whole check stops with exit 2 instead of waiting for every case)
+static WATCHDOGS: AtomicUsize = AtomicUsize::new(0);
+
 /// Evaluate through a worker; process death is turned into a verdict.
 fn eval_via(worker: &mut Worker, case: &Case, tier: Tier) -> Verdict {
     match worker.eval(case, tier) {
         WorkerOut::Verdict(v) => v,
-        WorkerOut::Timeout => Verdict::skip("watchdog"),
+        WorkerOut::Timeout => {
+            WATCHDOGS.fetch_add(1, Ordering::SeqCst);
+            Verdict::skip("watchdog")
+        }
         WorkerOut::Died(how) => {
             if how == "signal 9" {
                 Verdict::skip("worker killed (SIGKILL)")
@@ -415,6 +422,9 @@ pub fn run_property(root: &Path, prop: &str, tier: Tier, seed: u64) -> i32 {
             let st_cell = std::cell::RefCell::new(&mut st);
             let worker_cell = std::cell::RefCell::new(&mut worker);
             let result = runner.run(&strategy, |draws| {
+                if WATCHDOGS.load(Ordering::SeqCst) >= 3 {
+                    stop.store(true, Ordering::SeqCst);
+                }
                 if counting.get() && stop.load(Ordering::SeqCst) {
                     return Ok(());
                 }
@@ -488,6 +498,9 @@ pub fn run_property(root: &Path, prop: &str, tier: Tier, seed: u64) -> i32 {
         replay_paths.push(p.display().to_string());
     }
     let wall = t0.elapsed().as_secs_f64();
+    if WATCHDOGS.load(Ordering::SeqCst) >= 3 {
+        stats.harness_problems.push(format!("the watchdog expired {} times (a model run did not finish within the per-case limit): stopped early, inconclusive", WATCHDOGS.load(Ordering::SeqCst)));
+    }
     let inconclusive = !stats.harness_problems.is_empty();
     let evidence = serde_json::json!({
         "property_id": prop,
